@@ -66,6 +66,21 @@ def gen_budget(rng, profile='migrate', year=2025):
             c2['layout'] = lay
             st.fill_caps(rng, lay, c2['rows'])
             c2['settings'] = st.source_settings(lay, c2['name'], c2['file'])
+    if profile == 'full' and rng.random() < 0.25:
+        # one statement file read by TWO sources (a Debit and a Credit column, each source taking one of them):
+        # a source is its whole configuration, not its file
+        rows = st.gen_rows(rng, rng.randint(2, 6), first_id=700, year=year, neg_rate=0.0)
+        deb, cre = [], []
+        base_lay = {'mode': 1, 'date_format': '%m/%d/%Y', 'delimiter': None, 'has_header': True, 'decimal': '.', 'negate_setting': False,
+                    'eol': '\n', 'final_newline': True, 'extras': [], 'skips': 1, 'location': False, 'template': None}
+        lay_d = dict(base_lay, sign=rng.choice(['', '+']), cols=['date', 'description', 'amount', 'skip'])
+        lay_c = dict(base_lay, sign='-', cols=['date', 'description', 'skip', 'amount'])
+        for r in rows:
+            r['style'] = 'plain'
+            (deb if rng.random() < 0.5 else cre).append(r)
+        for nm, lay_, rws in (('Debits', lay_d, deb), ('Credits', lay_c, cre)):
+            b['sources'].append({'name': nm, 'file': 'data/both.csv', 'layout': lay_, 'rows': rws, 'supplemental': False,
+                                 'settings': st.source_settings(lay_, nm, 'data/both.csv'), 'shared': 'debit' if nm == 'Debits' else 'credit'})
     fields = sorted({e for s in b['sources'] for e in s['layout']['extras'] if s['layout']['mode'] == 1})
     supp_name = None
     if profile == 'full' and rng.random() < 0.4:
@@ -204,8 +219,21 @@ def render_budget(b, rng):
     """-> {relpath: text}.  Also fills b['rules_text'], b['views_text'] and the *_setting keys."""
     base = b['base']
     files = {}
+    shared = [s for s in b['sources'] if s.get('shared')]
     for s in b['sources']:
-        files[base + s['file']] = st.render(s['layout'], s['rows'])
+        if not s.get('shared'):
+            files[base + s['file']] = st.render(s['layout'], s['rows'])
+    if shared:
+        # one physical file, rendered now (descriptions may have been edited since the rows were drawn)
+        allrows = sorted(((r, s['shared']) for s in shared for r in s['rows']), key=lambda x: x[0]['id'])
+        lines = ['Date,Description,Debit,Credit']
+        for r, col in allrows:
+            cell = st.render_amount(r['value'], 'plain', '.')
+            d = st.date_cell(shared[0]['layout'], r)
+            desc = st._quote(r['desc'], None)
+            lines.append('%s,%s,%s,' % (d, desc, cell) if col == 'debit' else '%s,%s,,%s' % (d, desc, cell))
+        files[base + shared[0]['file']] = '\n'.join(lines) + '\n'
+
     if b['rules_kind'] == 'csv':
         files[base + 'config/merchant_categories.csv'] = rf.render_csv_rules(b['csv_rules'], rng)
     elif b['rules_kind'] == 'rules':
